@@ -12,7 +12,10 @@ GENS = [dict(max_n=4, beam=True), dict(max_n=3, beam=True, multi=True)]
 
 
 def extra(ctx):
-    pass
+    # the beam options travel through depccg.parsing.run and the glue: filter on, off, tiny pruning sizes
+    import glue_checks
+    glue_checks.single_suite(ctx, {'valid', 'optimal'}, [dict(max_n=4, beam=True), dict(max_n=4), dict(max_n=3, beam=True, multi=True)],
+                             ctx.budget(450, 4500))
 
 
 def run(ctx):
